@@ -56,7 +56,11 @@ def numeric_stream(ctx, single_col_zone, two_col_zone, old_spec):
                 case = {"builder": "single_col_zone.get_spec", "args": [nx, ny, repr(s)]}
                 ctx.count("numeric_single")
                 ctx.seen(("numeric-single", nx, ny, repr(s)), True)
-                sp = single_col_zone.get_spec(nx, ny, s)
+                try:
+                    sp = single_col_zone.get_spec(nx, ny, s)
+                except Exception as e:  # noqa: BLE001
+                    ctx.fail(case, f"single-zone builder raises on valid arguments: {type(e).__name__}: {str(e)[:120]}")
+                    continue
                 z = sp.layout.static_traps["traps"]
                 if z.shape != (nx, ny):
                     ctx.fail(case, f"single-zone layout has shape {z.shape}, requested ({nx}, {ny})")
@@ -101,7 +105,11 @@ def run(ctx):
     reqs, impls, metas = [], [], []
     for nx, ny, s in itertools.product(range(1, N + 1), range(1, N + 1), spacings):
         case = {"builder": "single_col_zone.get_spec", "args": [nx, ny, str(s)]}
-        sp = single_col_zone.get_spec(nx, ny, float(s))
+        try:
+            sp = single_col_zone.get_spec(nx, ny, float(s))
+        except Exception as e:  # noqa: BLE001
+            ctx.fail(case, f"single-zone builder raises on valid arguments: {type(e).__name__}: {str(e)[:120]}")
+            continue
         reqs.append(f"(C14 (single {nx} {ny} {sx(s)}))")
         impls.append(canon_spec(sp))
         metas.append(case)
@@ -120,7 +128,11 @@ def run(ctx):
         ctx.count("single")
     for nx, ny, s, gs in itertools.product(range(1, N + 1), range(1, N + 1), spacings[:3], gates):
         case = {"builder": "two_col_zone.get_spec", "args": [nx, ny, str(s), str(gs)]}
-        sp = two_col_zone.get_spec(nx, ny, float(s), float(gs))
+        try:
+            sp = two_col_zone.get_spec(nx, ny, float(s), float(gs))
+        except Exception as e:  # noqa: BLE001
+            ctx.fail(case, f"two-column builder raises on valid arguments: {type(e).__name__}: {str(e)[:120]}")
+            continue
         reqs.append(f"(C14 (twocol {nx} {ny} {sx(s)} {sx(gs)}))")
         impls.append(canon_spec(sp))
         metas.append(case)
